@@ -291,6 +291,10 @@ class OctetStringPayloadDecoder(AbstractSimplePayloadDecoder):
     protoComponent = univ.OctetString('')
     supportConstructedForm = True
 
+    # Fragments of a constructed encoding are OCTET STRINGs, also for the
+    # restricted character string types derived from this codec (X.690, 8.23.6)
+    fragmentSpec = univ.OctetString('')
+
     def valueDecoder(self, substrate, asn1Spec,
                      tagSet=None, length=None, state=None,
                      decodeFun=None, substrateFun=None,
@@ -327,7 +331,7 @@ class OctetStringPayloadDecoder(AbstractSimplePayloadDecoder):
         # head = popSubstream(substrate, length)
         while substrate.tell() - original_position < length:
             for component in decodeFun(
-                    substrate, self.protoComponent, substrateFun=substrateFun,
+                    substrate, self.fragmentSpec, substrateFun=substrateFun,
                     **options):
                 if isinstance(component, SubstrateUnderrunError):
                     yield component
@@ -356,7 +360,7 @@ class OctetStringPayloadDecoder(AbstractSimplePayloadDecoder):
         while True:  # loop over fragments
 
             for component in decodeFun(
-                    substrate, self.protoComponent, substrateFun=substrateFun,
+                    substrate, self.fragmentSpec, substrateFun=substrateFun,
                     allowEoo=True, **options):
 
                 if isinstance(component, SubstrateUnderrunError):
